@@ -5,8 +5,9 @@ Strings travel percent-encoded (one token, no spaces): printable ASCII passes th
 `% , ; | ~ !`; other characters are `%XX` (code point < 256) or `%uXXXXXX`.  `~` = empty string,
 `~~` = empty list; lists are `,`-separated, lists of lists `;`-separated.
 
-  rt <name> <ts> <uni> <eq> <sl> <slstr> <commentLines> <classLabel> <values> <panel>
-        → w=<text|E:..> p=<result|-> pf=<result|->   (write, then parse what was written; pf = no-label
+  rt <name> <ts> <uni> <eq> <sl> <slstr> <commentLines> <classLabel> <values> <panel> <real text|~~>
+        → w=<text|E:..> p=<result|-> pf=<result|-> pr=<result|->   (write, then parse what was written;
+          pr = the parser model on the file the real writer produced; pf = no-label
           files parsed after replacing the header line `@class_label false` by `@classLabel false`)
   ts <text> | arff <T/F> <text> | tsv <text>  → ts=<result> | arff=<result> | tsv=<result>
   fmt <ts> <arff> <tsv|~~>                    → ts=<result> arff=<result> tsv=<result|->
@@ -99,22 +100,27 @@ def showRes : Except Err Panel → String
 
 def handle (toks : List String) : String :=
   match toks with
-  | ["rt", name, ts, uni, eq, sl, slstr, com, cl, vals, panel] =>
+  | ["rt", name, ts, uni, eq, sl, slstr, com, cl, vals, panel, realText] =>
     match dec name, parseBool? ts, parseBool? uni, parseBool? eq, parseInt? sl, dec slstr,
           decList com, decList cl, decList vals, decPanel panel with
     | some name, some ts, some uni, some eq, some sl, some slstr, some com, some cl, some vals, some panel =>
       let o : WOpts := { problemName := name, timestamp := ts, univariate := uni, classLabel := cl,
                          equalLength := eq, seriesLength := sl, seriesLengthStr := slstr, commentLines := com }
-      match write o panel vals with
-      | .error e => s!"w={showErr e} p=- pf=-"
-      | .ok text =>
-        -- pf: the same panel through the writer with the repaired no-label header line
-        let pf := if cl.isEmpty then
-            (match writeFixed o panel vals with
-             | .ok t2 => showRes (parseTs t2)
-             | .error e => showErr e)
-          else "-"
-        s!"w={enc text} p={showRes (parseTs text)} pf={pf}"
+      -- pr: the parser model on the text the REAL writer produced (`~~` when it raised)
+      let pr := if realText == "~~" then some "-" else (dec realText).map (fun t => showRes (parseTs t))
+      match pr with
+      | none => "bad-op"
+      | some pr =>
+        match write o panel vals with
+        | .error e => s!"w={showErr e} p=- pf=- pr={pr}"
+        | .ok text =>
+          -- pf: the same panel through the writer with the repaired no-label header line
+          let pf := if cl.isEmpty then
+              (match writeFixed o panel vals with
+               | .ok t2 => showRes (parseTs t2)
+               | .error e => showErr e)
+            else "-"
+          s!"w={enc text} p={showRes (parseTs text)} pf={pf} pr={pr}"
     | _, _, _, _, _, _, _, _, _, _ => "bad-op"
   | ["ts", text] =>
     match dec text with
